@@ -97,6 +97,7 @@ func judgeForCase(c forCase, rec *hx.Rec) string {
 			}
 		}
 		add(i.Sequential, "sequential_blocks")
+		add(i.EquInsideBlock, "equ_defined_inside_a_block")
 		add(i.Nested, "nested")
 		add(i.ZeroCount, "zero_count")
 		add(i.EquCount, "equ_count")
